@@ -206,6 +206,7 @@ def run(ctx):
             props.append(f"prop.c17dh {name} {da} {db} {1 if i < 2 else 0}")
             Pb = refec.mul(c, db, G)
             corr.append(f"ec.dh {name} {da} {Pb[0]} {Pb[1]}")
+        props.append(f"prop.c17dhhist {name} {rng.randrange(1 << 30)} {12 if quick else 40}")
         # invalid points
         P = bases[-1]
         other = refec_curve(ctx, NAMED[(NAMED.index(name) + 1) % len(NAMED)])
